@@ -144,6 +144,12 @@ declarations:
 - decl: int *nodes(int n, int m) +dimension(n+1,m+1)
 - decl: int total(const int *v +rank(1), int n +implied(size(v)))
 - decl: double total(const double *v +rank(1), int n +implied(size(v)))
+- decl: int scale(int n, int *sum +intent(out), int factor = 3)
+- decl: int scale(const std::string &name, int a, int b, int c)
+- decl: int tally(const int *v +rank(1), int n +implied(size(v)), int bias = 100)
+- decl: int tally(int a, int b, int c, int d)
+- decl: int nextValue()
+- decl: int bump(int by)
 - decl: namespace ns
   declarations:
   - decl: int nsf(int a)
@@ -186,6 +192,12 @@ void halo(int n, int m, int *cells);
 int *nodes(int n, int m);
 int total(const int *v, int n);
 double total(const double *v, int n);
+int scale(int n, int *sum, int factor = 3);
+int scale(const std::string &name, int a, int b, int c);
+int tally(const int *v, int n, int bias = 100);
+int tally(int a, int b, int c, int d);
+int nextValue();
+int bump(int by);
 namespace ns { int nsf(int a); namespace inner { int innerf(int a); } }
 #endif
 """
@@ -218,6 +230,13 @@ void order(int a, double b, const std::string &c, bool d) { vt_txt("RECV order a
 void halo(int n, int m, int *cells) { vt_txt("RECV halo n="); vt_i(n); vt_txt(" m="); vt_i(m); vt_txt("\n"); for (int i = 0; i < (n + 2) * m; i++) cells[i] = 100 + i; }
 int *nodes(int n, int m) { static int store[64]; vt_txt("RECV nodes n="); vt_i(n); vt_txt(" m="); vt_i(m); vt_txt("\n"); for (int i = 0; i < (n + 1) * (m + 1) && i < 64; i++) store[i] = 200 + i; return store; }
 int total(const int *v, int n) { int s = 0; vt_txt("RECV total(int) n="); vt_i(n); vt_txt("\n"); for (int i = 0; i < n; i++) s += v[i]; return s; }
+int scale(int n, int *sum, int factor) { vt_txt("RECV scale(int) n="); vt_i(n); vt_txt(" factor="); vt_i(factor); vt_txt("\n"); *sum = n + factor; return n * factor; }
+int scale(const std::string &name, int a, int b, int c) { vt_txt("RECV scale(str) name="); vt_s(name.data(), (long) name.size()); vt_txt(" a="); vt_i(a); vt_txt("\n"); return a + b + c; }
+int tally(const int *v, int n, int bias) { int s = bias; vt_txt("RECV tally(arr) n="); vt_i(n); vt_txt(" bias="); vt_i(bias); vt_txt("\n"); for (int i = 0; i < n; i++) s += v[i]; return s; }
+int tally(int a, int b, int c, int d) { vt_txt("RECV tally(4) a="); vt_i(a); vt_txt("\n"); return a + b + c + d; }
+static int vt_counter = 0;
+int nextValue() { vt_counter += 1; vt_txt("RECV nextValue n="); vt_i(vt_counter); vt_txt("\n"); return vt_counter; }
+int bump(int by) { vt_counter += by; vt_txt("RECV bump n="); vt_i(vt_counter); vt_txt("\n"); return vt_counter; }
 double total(const double *v, int n) { double s = 0; vt_txt("RECV total(double) n="); vt_i(n); vt_txt("\n"); for (int i = 0; i < n; i++) s += v[i]; return s; }
 namespace ns { int nsf(int a) { vt_txt("RECV ns::nsf a="); vt_i(a); vt_txt("\n"); return a + 1; }
 namespace inner { int innerf(int a) { vt_txt("RECV ns::inner::innerf a="); vt_i(a); vt_txt("\n"); return a + 2; } } }
